@@ -221,7 +221,7 @@ def convert(execution):
             if x.get("e") != eid:
                 raise Unsupported("nested executor")
             cfg = {"script": scripts, "maxc": x["maxc"], "mins": x["mins"], "tolc": x["tolc"], "tolp": x["tolp"],
-                   "tfail": bool(execution.sc.get("faults") or execution.sc.get("faults_after_apply"))}
+                   "tfail": bool(execution.sc.get("faults") or execution.sc.get("faults_after_apply")), "pre": []}
             started = True
             continue
         if not started:
